@@ -189,7 +189,7 @@ class Gen(object):
                 e['props'][prop] = None
             else:
                 e['props'][prop] = pos7(rng, 1e-3, 200.0) if rng.random() < 0.8 else float(rng.choice([0.0, 1.0, 50.0]))
-        if samplers and rng.random() < 0.08:
+        if samplers and rng.random() < 0.2:
             e['bumpmap'] = {'sampler': rng.choice(samplers), 'texcoord': 'BUMPUV'}
         if 'transparent' in e['props'] and e['props']['transparent'] is None and e['opaque_mode'] == 'RGB_ZERO':
             # COLLADA keeps the opaque mode as an attribute of <transparent>: without that element
